@@ -91,6 +91,37 @@ type world struct {
 	// members constructed meanwhile (by session id, then peer)
 	ov    *overlap
 	early map[string]map[peer.ID]*earlyMember
+	// the relayers' LONG-LIVED key-share store objects: like the running relayer (app.go creates one
+	// ECDSA and one FROST store at start-up and hands them to every keygen / resharing / signing
+	// process), every process a relayer takes part in during a scenario - abandoned ones included -
+	// gets the SAME store object
+	smu  sync.Mutex
+	rawE map[peer.ID]*keyshare.ECDSAKeyshareStore
+	rawF map[peer.ID]*keyshare.FrostKeyshareStore
+}
+
+func (w *world) rawEStore(p peer.ID) *keyshare.ECDSAKeyshareStore {
+	w.smu.Lock()
+	defer w.smu.Unlock()
+	if w.rawE == nil {
+		w.rawE = map[peer.ID]*keyshare.ECDSAKeyshareStore{}
+	}
+	if w.rawE[p] == nil {
+		w.rawE[p] = keyshare.NewECDSAKeyshareStore(w.ecdsaPath(p))
+	}
+	return w.rawE[p]
+}
+
+func (w *world) rawFStore(p peer.ID) *keyshare.FrostKeyshareStore {
+	w.smu.Lock()
+	defer w.smu.Unlock()
+	if w.rawF == nil {
+		w.rawF = map[peer.ID]*keyshare.FrostKeyshareStore{}
+	}
+	if w.rawF[p] == nil {
+		w.rawF[p] = keyshare.NewFrostKeyshareStore(w.frostPath(p))
+	}
+	return w.rawF[p]
 }
 
 type ecdsaStorer interface {
@@ -106,19 +137,20 @@ type frostStorer interface {
 	UnlockKeyshare()
 }
 
-// estore / fstore: the relayer's key-share store - the repository's file store; Lock / Unlock are
-// no-ops except on the relayer picked for an overlapping refresh (overlap.go).
+// estore / fstore: the relayer's key-share store - the repository's file store, ONE object per relayer
+// for the whole scenario; Lock / Unlock are no-ops except on the relayer picked for an overlapping
+// refresh (overlap.go).
 func (w *world) estore(p peer.ID) ecdsaStorer {
 	if w.ov != nil && w.ov.peer == p {
-		return &c08fakes.LockedECDSAStore{ECDSAKeyshareStore: keyshare.NewECDSAKeyshareStore(w.ecdsaPath(p)), L: w.ov.lock}
+		return &c08fakes.LockedECDSAStore{ECDSAKeyshareStore: w.rawEStore(p), L: w.ov.lock}
 	}
-	return c08fakes.NewECDSAStore(w.ecdsaPath(p))
+	return &c08fakes.ECDSAStore{ECDSAKeyshareStore: w.rawEStore(p)}
 }
 func (w *world) fstore(p peer.ID) frostStorer {
 	if w.ov != nil && w.ov.peer == p {
-		return &c08fakes.LockedFrostStore{FrostKeyshareStore: keyshare.NewFrostKeyshareStore(w.frostPath(p)), L: w.ov.lock}
+		return &c08fakes.LockedFrostStore{FrostKeyshareStore: w.rawFStore(p), L: w.ov.lock}
 	}
-	return c08fakes.NewFrostStore(w.frostPath(p))
+	return &c08fakes.FrostStore{FrostKeyshareStore: w.rawFStore(p)}
 }
 
 func newWorld(seed uint64, peers []peer.ID) *world {
@@ -261,7 +293,7 @@ func (w *world) ecdsaKeygen(sid string, members []peer.ID, threshold int) runRes
 	procs := make([]tss.TssProcess, len(members))
 	for i, p := range members {
 		h := c08fakes.NewHost(p, members)
-		procs[i] = ekeygen.NewKeygen(sid, threshold, h, w.comm[p], c08fakes.NewECDSAStore(w.ecdsaPath(p)))
+		procs[i] = ekeygen.NewKeygen(sid, threshold, h, w.comm[p], w.estore(p))
 	}
 	return runProcs(procs, 0, members, 120*time.Second)
 }
@@ -352,7 +384,7 @@ func (w *world) frostKeygen(sid string, members []peer.ID, threshold int) runRes
 	procs := make([]tss.TssProcess, len(members))
 	for i, p := range members {
 		h := c08fakes.NewHost(p, members)
-		procs[i] = fkeygen.NewKeygen(sid, threshold, h, w.comm[p], c08fakes.NewFrostStore(w.frostPath(p)))
+		procs[i] = fkeygen.NewKeygen(sid, threshold, h, w.comm[p], w.fstore(p))
 	}
 	return runProcs(procs, 0, members, 120*time.Second)
 }
